@@ -63,6 +63,16 @@ CLAIMED = {
             "controls are non-repeating pre-solve sim-time controls toggling the run-time switch; that remove_leak clears everything.",
             "Leak term in the balance rows and tank demand is decided under C01. Timing itself is C04's mechanism. Not decided: solution values.",
             "DESIGN.md §4 C08"),
+    "C11": ("effect analysis: transitive attribute-write sets of both simulators over a name-and-receiver based call graph (sa/effects.py), compared "
+            "with definition / run-time field sets derived from the class table to_dict walks; setattr targets resolved through "
+            "ControlAction.__init__'s attribute map over every attribute string passed in the package; reset-coverage table comparison",
+            "Decides that no code reachable from WNTRSimulator or EpanetSimulator (incl. the INP writer and the binary reader) stores into a "
+            "definition field of any element, pattern, curve, source, option, control, condition or action; that the only option store made "
+            "around an internal simulation (skeletonize) is restored; and that every run-time field a run writes on an element kind is "
+            "re-initialised by reset_initial_values with the construction-time value, controls included (recursively through And/Or).",
+            "Does not decide bit-for-bit reproducibility. Call resolution is by naming convention (unresolved calls are counted, bound 12 %); "
+            "constructors of new objects are not followed as mutations; property getters are assumed pure. One known finding: a pump-speed "
+            "control (attribute base_speed) writes the definition property.", "DESIGN.md §4 C11"),
     "C12": ("sibling cross-check of InpFile._write_X / _read_X: unit-conversion sites followed by abstract interpretation into file columns / "
             "keywords / discriminators and joined; conversion classes from C17's partial evaluator; ordering and discriminator-column rules; "
             "six-way map comparison for rule clauses",
